@@ -107,12 +107,18 @@ def run(ctx):
         spec = json.load(fh)
     table = spec["scipy"]
 
-    def spc_value(key):
-        if key not in table:
-            raise NotConstant(f"scipy.constants.value({key!r}) is not in the frozen CODATA table")
-        return table[key]
+    with open(os.path.join(VERIF, "spec", "codata_full.json")) as fh:
+        full = json.load(fh)
 
-    ext = {"scipy.constants.value": spc_value, "scipy.constants.angstrom": table["angstrom"], "scipy.constants.calorie": table["calorie"]}
+    def spc_value(key):
+        if key in table:
+            return table[key]
+        if key in full["value"]:
+            return full["value"][key]
+        raise NotConstant(f"scipy.constants.value({key!r}) is not in the frozen CODATA tables")
+
+    ext = {"scipy.constants." + k: v for k, v in full["attr"].items()}
+    ext.update({"scipy.constants.value": spc_value, "scipy.constants.angstrom": table["angstrom"], "scipy.constants.calorie": table["calorie"]})
     ce3 = ConstEval(prog, externals=ext)
     um = prog.module("iodata.utils")
     for name in UNIT_NAMES:
@@ -267,9 +273,6 @@ def run(ctx):
                                 key = "*".join(f"{a[1:]}^{e}" for a, e in ats)
                                 table.setdefault(key, set()).add((tuple((k2, v2) for k2, v2 in m if not k2.startswith("@")), getattr(node, "lineno", 0), func))
         want = WRITE_ORACLE.get(short, {})
-        if short == "json_qcschema":
-            # written through json.dump: the dict passed to it is the sink
-            continue
         for attr in sorted(set(table) | set(want)):
             resids = {show(frozenset([r])) for r, _, _ in table.get(attr, set())}
             got = " | ".join(sorted(resids)) if resids else "<not written>"
@@ -294,6 +297,35 @@ def run(ctx):
 
     check_index_maps(ctx, "R5", ["cube_cellvecs", "vasp_axes"])
     ctx.floor("R5", ctx.rules["R5"]["obligations"], 2, "scaled-vector sites")
+
+
+def unit_tables(prog, shorts):
+    """{short: (reader {attr: tag}, writer {attr: set of residual monomials}, load_one, dump_one)} for sibling checks."""
+    out = {}
+    for short in shorts:
+        lo, do = prog.format_op(short, "load_one"), prog.format_op(short, "dump_one")
+        if lo is None or do is None:
+            continue
+        dom = UnitDomain(prog)
+        it = Interp(prog, dom)
+        ret, st = it.run_function(lo, {}, State())
+        flat = {}
+        if ret is not None:
+            flatten(it, st, ret, "", flat)
+        reader = {k.lstrip("."): v for k, v in flat.items() if k.count(".") == 1 and not k.endswith("*")}
+        dp = do.posparams[1]
+        dom2 = UnitDomain(prog, attr_sources={do.qualname: {dp}})
+        it2 = Interp(prog, dom2)
+        it2.run_function(do, {}, State())
+        writer = {}
+        for func, node, tags, stack in dom2.sinks:
+            for tg in tags:
+                for m in tg:
+                    ats = [(k, v) for k, v in m if k.startswith("@")]
+                    if len(ats) == 1 and ats[0][1] == 1:
+                        writer.setdefault(ats[0][0][1:], set()).add(tuple((k, v) for k, v in m if not k.startswith("@")))
+        out[short] = (reader, writer, lo, do)
+    return out
 
 
 # VASP manual, POSCAR: "the seventh line switches to selective dynamics (only the first character is relevant and must be
